@@ -1050,7 +1050,7 @@ def gen_history(spec, level):
             yield "selection-history:closed-by-write", ["hist", sel, steps]
             for fs in r_sets:
                 yield "selection-history:closed-by-replace", ["rep", ["hist", sel, steps], fs]
-            if level:
+            if level and n_sel < 3:
                 # the history goes on in a table selected from the compacted one
                 yield "selection-history:then-select", ["rep", ["idx", ["hist", sel, steps], S(1, None)], r_sets[0]]
         if level == 2 and n_sel < 3:
@@ -1125,7 +1125,7 @@ def programs(variant, tier, eol):
             level = 0
     else:
         level = QUICK_LEVEL.get(variant, 0) if eol == "lf" else 0
-    hist_level = (THOROUGH_LEVEL.get(variant, 1) if eol == "lf" else 1) if tier == "thorough" else \
+    hist_level = (THOROUGH_LEVEL.get(variant, 1) if eol == "lf" else 0) if tier == "thorough" else \
         (QUICK_HISTORY_LEVEL.get(variant, 0) if eol == "lf" else 0)
     if variant == "bam":
         yield from gen_history_bam()
